@@ -172,6 +172,9 @@ fn info(path: &str, detailed: bool) -> Result<()> {
     if !path.exists() {
         anyhow::bail!("File not found: {}", path.display());
     }
+    if !path.is_file() {
+        anyhow::bail!("Not a regular file: {}", path.display());
+    }
 
     let file =
         File::open(path).with_context(|| format!("Failed to open file: {}", path.display()))?;
@@ -425,6 +428,9 @@ fn validate(path: &str, _show_warnings: bool, _detailed: bool) -> Result<()> {
 
     if !path.exists() {
         anyhow::bail!("File not found: {}", path.display());
+    }
+    if !path.is_file() {
+        anyhow::bail!("Not a regular file: {}", path.display());
     }
 
     let file =
@@ -703,6 +709,9 @@ fn tree(
 
     if !path.exists() {
         anyhow::bail!("File not found: {}", path.display());
+    }
+    if !path.is_file() {
+        anyhow::bail!("Not a regular file: {}", path.display());
     }
 
     let file =
